@@ -1352,7 +1352,7 @@ func NewSoftware(version uint8, softwareName string) Software {
 	software.version, err = strconv.ParseFloat(regexResult[0][2], 64)
 	if software.name != "cumulus" && (err != nil || version >= 5) {
 		software.name = defaultZebraSoftwareName
-		if version == 5 && software.version < 4 && software.version >= 6 {
+		if version == 5 && (software.version < 4 || software.version >= 6) {
 			software.version = defaultZapi5SoftwareVersion
 		} else if version == 6 && software.version < 6 {
 			software.version = defaultZapi6SoftwareVersion
